@@ -1037,6 +1037,85 @@ func (r *e2Run) attacker(ctx context.Context) {
 	}
 }
 
+// quietAttacks (C11): after convergence, with every actor stopped, requests without the session's secret are
+// sent one at a time and the complete state of every node (including the node-local throttling state) is
+// compared before and after each. A comparison counts only when no log entry was applied in between.
+func (r *e2Run) quietAttacks() {
+	var victims []*e2Client
+	for _, c := range r.clients {
+		if c.session != "" && !c.goneA.Load() {
+			victims = append(victims, c)
+		}
+	}
+	if len(victims) == 0 {
+		return
+	}
+	type snap struct {
+		idx  []uint64
+		dump []string
+	}
+	take := func() snap {
+		var s snap
+		for _, n := range r.nodes {
+			s.idx = append(s.idx, n.raft.AppliedIndex(), n.raft.LastIndex())
+			irc := n.ircNow()
+			s.dump = append(s.dump, ircserver.VerifDump(irc)+"\nthrottle="+ircserver.VerifThrottle(irc)+"\n")
+		}
+		return s
+	}
+	g := r.src.Stream("quietattack")
+	for k := 0; k < 12; k++ {
+		v := victims[g.Intn(len(victims))]
+		other := victims[g.Intn(len(victims))]
+		creds := [][2]string{{"none", ""}, {"empty", ""}, {"wrong", strings.Repeat("cd", 128)}, {"prefix", v.auth[:1+g.Intn(8)]}}
+		if other != v {
+			creds = append(creds, [2]string{"other-session", other.auth})
+		}
+		cr := creds[g.Intn(len(creds))]
+		hdr := map[string]string{}
+		if cr[0] != "none" {
+			hdr["X-Session-Auth"] = cr[1]
+		}
+		node := g.Intn(len(r.nodes))
+		method, path, body := "POST", "/robustirc/v1/"+v.session+"/message", fmt.Sprintf(`{"Data":"PRIVMSG #sim :QUIET-%d","ClientMessageId":%d}`, k, 990000+k)
+		switch g.Intn(3) {
+		case 1:
+			method, path, body = "DELETE", "/robustirc/v1/"+v.session, `{"Quitmessage":"pwned"}`
+		case 2:
+			method, path, body = "GET", "/robustirc/v1/"+v.session+"/messages?lastseen=0.0", ""
+		}
+		reps := 1 + g.Intn(4)
+		before := take()
+		refused := true
+		var code int
+		for i := 0; i < reps; i++ {
+			rctx, cancel := context.WithTimeout(context.Background(), 10*time.Second)
+			c, _, _, err := r.request(rctx, node, method, path, hdr, body)
+			cancel()
+			if err != nil {
+				refused = false
+				break
+			}
+			code = c
+			if c < 400 {
+				r.violate("C11", "unauthenticated-request-accepted", "quiet-accepted:"+method+":"+cr[0], "%s %s with %s secret was answered %d", method, path, cr[0], c)
+				refused = false
+			}
+		}
+		after := take()
+		if !refused || fmt.Sprint(before.idx) != fmt.Sprint(after.idx) {
+			r.count("quiet_attacks_inconclusive", 1)
+			continue
+		}
+		r.count("quiet_attacks_compared", 1)
+		for i := range r.nodes {
+			if before.dump[i] != after.dump[i] {
+				r.violate("C11", "unauthenticated-effect", "refused-request-changed-state:"+method, "%d x %s %s with %s secret sent to node %d was refused (%d) and no log entry was applied, yet the state of node %d changed:\n%s", reps, method, path, cr[0], node%len(r.nodes), code, i, firstDiff(before.dump[i], after.dump[i]))
+			}
+		}
+	}
+}
+
 // admin (C16): configuration posts, one after another
 func (r *e2Run) admin(ctx context.Context) {
 	g := r.src.Stream("admin")
@@ -1850,6 +1929,20 @@ func (r *e2Run) finalChecks(lastFault time.Time) {
 			}
 		}
 		c.mu.Unlock()
+		// C11: a reader is given only what is addressed to its own session, however it resumes
+		c.mu.Lock()
+		inRef := map[robust.Id]bool{}
+		for _, m := range refMsgs {
+			inRef[m.Id] = true
+		}
+		for _, m := range c.got {
+			r.count("received_messages_checked", 1)
+			if !inRef[m.Id] {
+				r.violate("C11", "foreign-message-revealed", "foreign-message-revealed", "client %d (session %s), reading with its own secret over resumed connections, was given message %d.%d %q, which is not part of its own stream on any node", c.idx, c.session, m.Id.Id-prodMessageOffsetE2, m.Id.Reply, trunc(m.Data, 100))
+				break
+			}
+		}
+		c.mu.Unlock()
 		// what the client itself received over its reconnecting connection: no duplicates, in order
 		c.mu.Lock()
 		seen := map[string]bool{}
@@ -1928,6 +2021,7 @@ func (r *e2Run) propertyChecks() {
 				r.violate("C11", "unauthenticated-effect", "session-deleted-by-attacker", "session %s of client %d no longer exists although its owner never deleted it", c.session, c.idx)
 			}
 		}
+			r.quietAttacks()
 	}
 	// C16: every replica uses the same configuration
 	if r.prop == "C16" {
